@@ -52,7 +52,7 @@ Section Run.
     | Some (g, _) =>
         let s := {| i_gateway := gwa; i_gas := gasa; i_tm_impl := tmimpl; i_chain := chain; i_chain_hash := keccak256 chain;
                     i_paused := false; i_trusted := trusted_; i_tms := []; i_locks := []; i_approvals := [];
-                    i_roles := [(operator, OPERATOR)] |} in
+                    i_roles := [(operator, OPERATOR)]; i_proposed := [] |} in
         0 :: icheck_steps tracked self gwa {| iw_gw := g; iw_its := s; iw_tms := []; iw_led := l0; iw_pend := []; iw_next := 0 |} steps
     | None => [1]
     end.
